@@ -37,7 +37,16 @@ int libwifi_parse_radiotap_info(struct libwifi_radiotap_info *info, const unsign
 
     struct ieee80211_radiotap_header *rh = (struct ieee80211_radiotap_header *) frame;
     struct ieee80211_radiotap_iterator it = {0};
-    int ret = ieee80211_radiotap_iterator_init(&it, (void *) frame, rh->it_len, NULL);
+
+    // The header length must cover the fixed header, lie within the supplied data (checked by the
+    // iterator against frame_len), and be representable in the length field of libwifi_radiotap_info
+    if (rh->it_len < sizeof(struct ieee80211_radiotap_header) || rh->it_len > UINT8_MAX) {
+        return -EINVAL;
+    }
+    int ret = ieee80211_radiotap_iterator_init(&it, (void *) frame, frame_len, NULL);
+    if (ret != 0) {
+        return ret;
+    }
 
     int skipped_antenna = 0;
     info->length = rh->it_len;
